@@ -242,6 +242,7 @@ BREAKING = [
     ('C11', 'sc3/base/stream.py', "        if self._next_nargs > 1:\n            return self.next_func(inval, self.data)", "        if self._next_nargs > 1:\n            return self.next_func(self.data, inval)", 'FunctionStream hands data and input value over in the wrong order'),
     ('C13', 'sc3/seq/patterns/valuepatterns.py', "                inval = yield bi.exprand(loval, hival)", "                inval = yield bi.rrand(loval, hival)", 'Pexprand draws from the uniform distribution'),
     ('C13', 'sc3/seq/patterns/valuepatterns.py', "                    self._calc_next(current, stepval), loval, hival)", "                    self._calc_next(current, stepval), hival, loval)", 'Pbrown folds with the bounds exchanged'),
+    ('C06', 'sc3/base/_osclib.py', "            self._args.append((arg_type, arg_value))", "            self._args.append((arg_value, arg_type))", 'argument entry stored as (value, type)'),
 ]
 
 
